@@ -101,6 +101,7 @@ let eval_stream (stream : string) (case : string) (impl : string) : verdict =
     { model; fails = (if spec <> impl then [("C19", "-")] else []) }
   | "parse" -> let (model, fails) = Parse_o.eval_parse case impl in { model; fails }
   | "prefix" -> let (model, fails) = Parse_o.eval_prefix case impl in { model; fails }
+  | "prefixsafe" -> { model = impl; fails = (if String.contains impl 'X' then [("C01", "-")] else []) }
   | "grammar" -> let (model, fails) = Parse_o.eval_grammar case impl in { model; fails }
   | "readloop" -> let (model, fails) = Conn_o.eval_readloop case impl in { model; fails }
   | "conn05" -> let (model, fails) = Conn_o.eval ["C05"] case impl in { model; fails }
